@@ -81,6 +81,36 @@ pub fn round_trip<T: Fam>(v: &T, cfg: SerCfg, known: &Known) -> Outcome {
         Ok(x) => x,
         Err(e) => return classify(v, known, format!("serialization failed: {}", e), None::<&T>),
     };
+    // sibling entry points of the serializer must write the same document: to_writer (fmt::Write),
+    // to_utf8_io_writer into a sink that takes one byte per call, to_string_with_root
+    if cfg == SerCfg::plain() {
+        let via = guarded_mut(|| -> Result<(), String> {
+            let mut a = String::new();
+            quick_xml::se::to_writer(&mut a, v).map_err(|e| format!("to_writer fails: {:?}", e))?;
+            if a != xml {
+                return Err(format!("to_writer gives {:?}", a));
+            }
+            let mut sink = crate::props::c13::ShortSink { out: Vec::new(), max: 1 };
+            quick_xml::se::to_utf8_io_writer(&mut sink, v).map_err(|e| format!("to_utf8_io_writer fails: {:?}", e))?;
+            if sink.out != xml.as_bytes() {
+                return Err(format!("to_utf8_io_writer into a one-byte-per-call sink gives {:?}", lossy(&sink.out)));
+            }
+            let b = quick_xml::se::to_string_with_root("r", v).map_err(|e| format!("to_string_with_root fails: {:?}", e))?;
+            match de::<T>(&b) {
+                Ok(back) if back == *v => {}
+                // the same round trip under another root name: the known-finding shapes fail here as they do below
+                Ok(back) => return Err(format!("ROOT serialized as {:?}, deserialized as {:?}", b, back)),
+                Err(e) => return Err(format!("ROOT serialized as {:?}, deserialization failed: {}", b, e)),
+            }
+            Ok(())
+        });
+        match via {
+            Ok(Ok(())) => {}
+            Ok(Err(e)) if e.starts_with("ROOT ") => return classify(v, known, format!("to_string_with_root: {}", &e[5..]), None::<&T>),
+            Ok(Err(e)) => return Outcome::Bad(format!("serialized as {:?} by to_string, but {}", xml, e)),
+            Err(p) => return Outcome::Bad(format!("panic in a serializer entry point: {}", p)),
+        }
+    }
     match de::<T>(&xml) {
         Ok(back) if back == *v => match de_reader::<T>(&xml) {
             Ok(b2) if b2 == *v => Outcome::Ok(xml),
@@ -240,7 +270,7 @@ pub fn run(ctx: &Ctx) {
          0..2/3; options; numeric extremes) x 3 quote levels x indent off/on x expand-empty off/on x root name from the type / \
          with_root; plus, per payload position of each type (attribute, element text, $text, $value, list item in attribute / text, \
          map value, newtype / struct / $text variant payload, char), every string up to length 3/5 over {< > & ' \" space tab LF CR FF ] ; # a é U+FEFF} (and, for size thresholds, filler^p . item . filler^q with p <= 40/130 and q around the powers of two, three quote levels) \
-         inside that position's documented domain: to_string must succeed and from_str and from_reader of the output must equal the value. non-trivial = every \
+         inside that position's documented domain: to_string must succeed (and, under the plain configuration, to_writer, to_utf8_io_writer into a one-byte-per-call sink and to_string_with_root must agree with it) and from_str and from_reader of the output must equal the value. non-trivial = every \
          round trip (all values carry markup-relevant payloads or structure); distinct by construction. states = distinct document \
          skeletons produced",
     );
